@@ -565,8 +565,13 @@ def classify(mode, body, raw):
         pa = next(p for p, k in lits.items() if k == lit)
         mbody = mark(mbody, pa, "A")
     m2, small, msg2 = shrink(mode, mbody, side, kind)
-    key = mech_key(m2, small, side, kind)
     sbody = strip(small)
+    # the constructs the MINIMAL witness still needs are part of the mechanism: two defects that put an assignment and
+    # a use in the same pair of places (e.g. loop body -> loop else) but need different constructs to do so
+    # (try/finally + continue vs. a plain continue) must not share a key
+    key = mech_key(m2, small, side, kind)
+    if not key.endswith(("|nested-def-read", "|nonlocal-def")):  # closures: one by-design mechanism each
+        key += "|needs:" + ",".join(features(sbody))
     text = sk.source_text(m2, sbody)
     return key, f"{msg2 or msg}\n{text}", {"mode": m2, "skeleton": json.dumps(to_json(sbody)), "source": text,
                                              "key": key}
